@@ -729,6 +729,12 @@ func (l *lexer) scanHeredoc() bool {
 	find := func(r *ast.Redir, delim string) bool {
 		for i := len(l.word) - 1; i >= 0; i-- {
 			if l.word[i].Pos().Col() == 1 {
+				if i > 0 {
+					if w, ok := l.word[i-1].(*ast.Lit); !ok || !strings.HasSuffix(w.Value, "\n") {
+						// continues the previous line
+						continue
+					}
+				}
 				s := l.print(l.word[i:])
 				if r.Op == "<<-" {
 					s = strings.TrimLeft(s, "\t")
